@@ -215,7 +215,9 @@ def sibling(rnd, conc, model):
     for m in keep[:6 if st == 1 else 2]:
         if st and rnd.random() < 0.5:
             dblob[m] = B.gen_big_blob(rnd, st)
-    md5 = [(conc.names[m], hashlib.md5(dblob[m]).hexdigest()) for m in keep if rnd.random() < 0.7]
+    # (a top-level name with leading white space is outside NameDom of DebPayload.tla: never listed)
+    md5 = [(conc.names[m], hashlib.md5(dblob[m]).hexdigest()) for m in keep
+           if rnd.random() < 0.7 and B.name_listable(conc.names[m])]
     rnd.shuffle(md5)
     cfiles = [(n, b) for n, b in other.cfiles if n != "md5sums"] + [("md5sums", B.render_md5(md5))]
     rnd.shuffle(cfiles)
